@@ -43,6 +43,10 @@ type Scripted struct {
 	Final error
 	// FinalWithData returns Final together with the last data bytes.
 	FinalWithData bool
+	// Then, if non-nil, is what a reader whose failure was a one-shot (a deadline, EINTR) delivers to whoever reads
+	// on after Final was returned once; then io.EOF.
+	Then    []byte
+	thenPos int
 
 	// OnRead is called at the entry of every Read (the point where a real
 	// source could block), with the number of bytes delivered so far.
@@ -69,6 +73,15 @@ func (s *Scripted) Read(p []byte) (int, error) {
 	}
 	if s.ended {
 		s.ReadsAfterEnd++
+		if s.Then != nil {
+			// the failure was a one-shot: the source goes on
+			if s.thenPos < len(s.Then) {
+				n := copy(p, s.Then[s.thenPos:])
+				s.thenPos += n
+				return n, nil
+			}
+			return 0, io.EOF
+		}
 		return 0, fin
 	}
 	if len(p) > s.MaxP {
